@@ -180,6 +180,13 @@ class ProgGen:
     # ---- binary / structural
     def binary(self, a, b):
         r = self.rng
+        if a.keyed and b.keyed and a.part and b.part and a.repl == "unlimited" and b.repl == "unlimited" \
+                and r.random() < 0.7:
+            # keyed join / merge: forward connections, both sides rely on the same key partitioning
+            i = self.nid()
+            op = r.choice(["kjoin", "kmerge"])
+            self.add({"id": i, "op": op, "variant": r.choice(["inner", "outer"]), "in": [a.ref, b.ref]})
+            return St(i, keyed=True, repl="unlimited", part=True, kord=False)
         a = self.to_plain(a)
         b = self.to_plain(b)
         ops = ["merge"]
@@ -280,6 +287,14 @@ class ProgGen:
                 live.append(self.step(s))
             elif x < 0.74:
                 other = live.pop(r.randrange(len(live))) if live and r.random() < 0.5 else self.chain(self.source(), r.randint(0, 1))
+                if s.keyed and s.part and s.repl == "unlimited" and not other.keyed and r.random() < 0.6:
+                    j = self.nid()
+                    kind = r.choice(["group_by", "gb_count", "gb_sum", "gb_fold"])
+                    node = {"id": j, "op": kind, "m": r.choice([2, 3, 5, 11]), "in": [other.ref]}
+                    if kind == "gb_fold":
+                        node["agg"] = r.choice(AGGS)
+                    self.add(node)
+                    other = St(j, keyed=True, repl="unlimited", part=True, kord=False)
                 live.append(self.binary(s, other))
             elif x < 0.86:
                 live.extend(self.fanout(s))
@@ -403,11 +418,22 @@ def join_programs(rng, n):
             nodes.append({"id": "lm", "op": rng.choice(["map", "shuffle"]), "f": rng.choice(MAPS), "in": ["l"]}); a = "lm"
         if rng.random() < 0.4:
             nodes.append({"id": "rm", "op": rng.choice(["map", "shuffle"]), "f": rng.choice(MAPS), "in": ["r"]}); b = "rm"
-        if i % 7 == 6:
-            # keyed-stream join
-            mk = rng.choice([2, 3, 5])
-            nodes += [{"id": "gl", "op": "group_by", "m": mk, "in": [a]}, {"id": "gr", "op": "group_by", "m": mk, "in": [b]},
-                      {"id": "j", "op": "kjoin", "variant": rng.choice(["inner", "outer"]), "in": ["gl", "gr"]}]
+        if i % 7 in (5, 6):
+            # keyed-stream join: both sides must be partitioned alike, whichever API call partitioned them
+            # (group_by, or one of the two-phase group_by_* aggregations)
+            mk = rng.choice([2, 3, 5, 11, 17])
+            def keyed(side, src):
+                kind = rng.choice(["group_by", "gb_count", "gb_fold", "gb_reduce", "gb_sum", "gb_max"]) if i % 7 == 5 \
+                    else "group_by"
+                n = {"id": side, "op": kind, "m": mk, "in": [src]}
+                if kind == "gb_fold":
+                    n["agg"] = rng.choice(AGGS)
+                if kind == "gb_reduce":
+                    n["agg"] = rng.choice(["sum", "max", "min"])
+                return n
+            nodes += [keyed("gl", a), {"id": "gr", "op": "group_by", "m": mk, "in": [b]},
+                      {"id": "j", "op": rng.choice(["kjoin", "kjoin", "kmerge"]), "variant": rng.choice(["inner", "outer"]),
+                       "in": ["gl", "gr"]}]
         else:
             nodes.append({"id": "j", "op": "join", "ship": ship, "local": local, "variant": variant,
                           "ml": rng.choice([1, 2, 3, 5, 7]), "mr": rng.choice([1, 2, 3, 5, 7]), "in": [a, b]})
